@@ -6,7 +6,7 @@
    A frame is (Function, Func != nil, printed line, PC - Entry); the runtime
    symboliser is a parameter of the theorems that mention program counters. *)
 From Coq Require Import List ZArith NArith Bool.
-From Tele Require Import Lib.Bytes Lib.Digits Gen.Consts Model.Stack Proofs.StackFacts.
+From Tele Require Import Lib.Bytes Lib.Digits Gen.Consts Model.Stack Proofs.StackFacts Model.StackConc Proofs.StackConcFacts.
 Import ListNotations.
 Open Scope N_scope.
 
@@ -21,6 +21,31 @@ Theorem C15_same_stack_same_counter :
   nth_error hits i = nth_error hits j /\ nth_error hits i <> None.
 Proof. exact same_stack_same_counter. Qed.
 Print Assumptions C15_same_stack_same_counter.
+
+(* ---- the same clause under CONCURRENCY.  StackCounter.Inc holds c.mu across
+   lookup, EncodeStack, append and the increment, so one Inc is one atomic
+   find-or-append-and-add on c.stacks (Model/StackConc); a concurrent execution
+   of any number of goroutines is an interleaving of their Incs.  For every
+   family of threads (each a sequence of call stacks it increments from) and
+   EVERY interleaving: a call stack owns at most one counter, exactly one if it
+   was incremented at all, and that counter holds the total number of Incs made
+   from that stack by all threads. *)
+Theorem C15_concurrent_incs_one_counter :
+  forall (ths : list (list (list N))) (h : list (list N)) (j : list N),
+  interleaving ths h ->
+  (entries j (run_atomic h) <= 1)%nat /\
+  (In j h -> entries j (run_atomic h) = 1%nat) /\
+  total j (run_atomic h) =
+    N.of_nat (fold_right (fun t acc => (count_occ key_dec t j + acc)%nat) 0%nat ths).
+Proof. exact concurrent_incs_one_counter. Qed.
+Print Assumptions C15_concurrent_incs_one_counter.
+
+(* the lock is needed across lookup AND append: two first Incs of one stack
+   that both looked up before either appended leave two counters *)
+Theorem C15_unlocked_find_or_append_refuted :
+  let k := [1; 2] in entries k (append_new k (append_new k [])) = 2%nat.
+Proof. exact unlocked_find_or_append_refuted. Qed.
+Print Assumptions C15_unlocked_find_or_append_refuted.
 
 (* ---- different stacks hit different counters ... *)
 Theorem C15_different_stack_different_counter :
